@@ -21,11 +21,20 @@
 //!   mine                    template -> block -> process; emits the reorg lines             -> ok
 //!   fork <back> <extra> <nprop> <ncommit>   ChainBuilder branch, processed block by block;
 //!                           the reorg lines are emitted for every block that changes the chain -> ok
-//!   forkx <back> <len> <proposal tids|-> <commit tids|->   another miner's blocks: branch from
+//!   forkx <back> <len> <proposal tids|-> <commit tids|-> [<uncle proposal tids>]   another miner's blocks: branch from
 //!                           tip-back (0 = extension) of <len> blocks, the first proposes the given
 //!                           txs, the given txs are committed (in that order, if valid there) from
-//!                           block 1+w_close on                                              -> ok
+//!                           block 1+w_close on; the optional last list is proposed by an UNCLE carried by
+//!                           the second block of the branch (round 6)                        -> ok
+//!   psubmit <tid> <t.i,..> <n_out> <fee> <hdep depth|-> [<cell deps|->]   (round 6) the FIRST phase of a local
+//!                           submission through the real service (non_contextual_verify, pre_check, verify_rtx),
+//!                           then the submission is paused (hook TxPoolController::verif_submit_paused)          -> ok
+//!   prelease                the paused submission goes on: submit_entry(pre_resolve_tip, ..) incl. its re-check
+//!                           against the pool's current snapshot, after_process; emits rpool/rent/rargs/rstale    -> ok
 //!   derived (ignored on replay, regenerated):
+//!     rstale <id> <spent> <cell deps> <header ids> <created> <size> <tip changed 0|1> <stage of the pre-check> <live out-points>
+//!                           -> <accepted 0|1> <id>:<status>,... the pool after submit_entry (rargs before it carries the
+//!                           transaction's header deps that are off the main chain and the current proposal view)
 //!     rpool                                                  -> ok
 //!     rent <id> <status 0 pending|1 gap|2 proposed> <spent> <cell deps> <header ids> <created> <size>  -> ok
 //!     ratt <id> <spent> <cell deps> <header ids> <created> <ok 0|1> <size>   -> ok   (attached txs, block order)
@@ -53,16 +62,19 @@
 //! Round 5: the model answers with `reorgR` (Model/ReorgReadd.lean): `remove_by_detached_proposal`'s
 //! `add_pending` and `readd_detached_tx`'s `_submit_entry` are `PoolMap::add_entry` as written (ancestor
 //! limit, eviction of cell-ref parents with descendants, refusal after an eviction). The directed
-//! families `gen_deep` D1/D2 (cases with max_ancestors 5 or 6) reach those branches. Three causes found
-//! there are SUSPECTED defects reported to the coordinator; until listed they are COUNTED, not failed:
-//! `suspected-pooled-tx-dropped-at-detached-proposal-readd` / `suspected-input-of-parent-dropped-at-
-//! detached-proposal-readd` (sub-class of dead-or-unknown-input: the creator left at a chain change
-//! although nothing committed, consumed, detached or expired it or an ancestor, and it or an ancestor
-//! was a non-pending entry with a detached proposal), `suspected-input-of-evicted-cell-ref-parent`
-//! (sub-class of dead-or-unknown-input/-cell-dep: the missing creator has a cell the user spends as a cell
-//! dep and is not committed), `suspected-lost-tx-evicted-as-cell-ref-parent-of-refused-readd` (sub-class of
-//! lost-tx: the lost transaction or one of its detached-only ancestors has a cell dep that a LATER
-//! detached-only transaction, itself not pooled, spends).
+//! families `gen_deep` D1/D2 (cases with max_ancestors 5 or 6) reach those branches. The causes found
+//! there are listed in known_findings.txt and reported under their listed names since round 6:
+//! `pooled-tx-dropped-at-detached-proposal-readd` / `input-of-parent-dropped-at-detached-proposal-readd`
+//! (sub-class of dead-or-unknown-input: the creator left at a chain change although nothing committed,
+//! consumed, detached or expired it or an ancestor, and it or an ancestor was a non-pending entry with a
+//! detached proposal), `lost-tx-evicted-as-cell-ref-parent-of-refused-readd` (sub-class of lost-tx: the lost
+//! transaction or one of its detached-only ancestors has a cell dep that a LATER detached-only
+//! transaction, itself not pooled, spends). `input-of-evicted-cell-ref-parent` (the missing creator has a
+//! cell the user spends as a cell dep and is not committed) was F33, repaired by /repo 10e306f: a failing
+//! class now, and the model follows the repaired `check_and_record_ancestors`.
+//! Round 6 directed families in `gen_burst`: E (a spender and a dep user of the same cell pooled, a third
+//! spender committed), R (re-proposal around the block at which the first proposal leaves the window),
+//! T (parent and child committed in different blocks of an abandoned branch).
 use crate::common::*;
 use crate::node::*;
 use ckb_app_config::{BlockAssemblerConfig, NetworkConfig, TxPoolConfig};
@@ -206,6 +218,9 @@ struct World {
     dropped_detached: HashSet<usize>,
     clock: u64,
     guard: ckb_systemtime::FaketimeGuard,
+    /// a local submission paused between its verification and `submit_entry` (round 6):
+    /// (tid, the handle, the pool's tip at the pre-check, the stage the pre-check window gave the id)
+    paused: Option<(usize, ckb_tx_pool::service::VerifPaused, Byte32, u8)>,
 }
 
 fn cap_of(tx: &TransactionView, i: usize) -> u64 {
@@ -239,11 +254,14 @@ impl World {
         let gcells = genesis_cells(&consensus);
         let mut block_ids = HashMap::new();
         block_ids.insert(consensus.genesis_hash(), 0);
-        World { dir, cfg, consensus, main, builder, txs: vec![], fees: vec![], code_cell: always_success_dep().out_point(), tid_by_short: HashMap::new(), tid_by_hash: HashMap::new(), gcells, block_ids, salt: 1000, ever_detached: HashSet::new(), expired_removed: HashSet::new(), dropped_detached: HashSet::new(), clock, guard }
+        World { dir, cfg, consensus, main, builder, txs: vec![], fees: vec![], code_cell: always_success_dep().out_point(), tid_by_short: HashMap::new(), tid_by_hash: HashMap::new(), gcells, block_ids, salt: 1000, ever_detached: HashSet::new(), expired_removed: HashSet::new(), dropped_detached: HashSet::new(), clock, guard, paused: None }
     }
 
     fn finish(self) {
-        let World { dir, main, builder, guard, .. } = self;
+        let World { dir, main, builder, guard, paused, .. } = self;
+        if let Some((_, h, _, _)) = paused {
+            let _ = h.release();
+        }
         drop(builder);
         main.stop();
         drop(guard);
@@ -534,7 +552,8 @@ fn after_chain_change(w: &mut World, out: &mut Out, pre: &Pre) {
             }
             if line.iter().any(|x| x.status != 0 && det_props.contains(&x.tid)) {
                 w.dropped_detached.insert(e.tid);
-                out.count("suspected-pooled-tx-dropped-at-detached-proposal-readd");
+                out.count("pooled-tx-dropped-at-detached-proposal-readd-seen");
+                out.oracle_fail("pooled-tx-dropped-at-detached-proposal-readd", &format!("tx{} left the pool at a chain change although nothing committed, consumed, detached or expired it or an ancestor (its proposal or an ancestor's was detached)", e.tid));
             }
         }
     }
@@ -558,11 +577,13 @@ fn after_chain_change(w: &mut World, out: &mut Out, pre: &Pre) {
         if by_expiry {
             "input-of-expired-parent".to_string()
         } else if by_detached_readd {
-            "suspected-input-of-parent-dropped-at-detached-proposal-readd".to_string()
-        } else if by_cell_ref_eviction {
-            "suspected-input-of-evicted-cell-ref-parent".to_string()
+            // listed in known_findings.txt (round 5): reported under its listed name
+            "input-of-parent-dropped-at-detached-proposal-readd".to_string()
         } else if orphaned {
             "input-of-detached-parent-not-readmitted".to_string()
+        } else if by_cell_ref_eviction {
+            // F33, repaired by /repo 10e306f: a FAILING class since round 6
+            "input-of-evicted-cell-ref-parent".to_string()
         } else {
             format!("dead-or-unknown-{what}")
         }
@@ -699,7 +720,8 @@ fn after_chain_change(w: &mut World, out: &mut Out, pre: &Pre) {
             })
         };
         if resolvable && hdr_ok && within_policy && fee_ok && evicted_as_cell_ref {
-            out.count("suspected-lost-tx-evicted-as-cell-ref-parent-of-refused-readd");
+            out.count("lost-tx-evicted-as-cell-ref-parent-of-refused-readd-seen");
+            out.oracle_fail("lost-tx-evicted-as-cell-ref-parent-of-refused-readd", &format!("tx{tid} was committed only on the abandoned branch, is admissible, but was evicted as a cell-ref parent of a later detached-only transaction whose insertion was refused"));
         } else if resolvable && hdr_ok && within_policy && fee_ok {
             out.oracle_fail(&format!("lost-tx{suffix}"), &format!("tx{tid} was committed only on the abandoned branch, is resolvable on the new chain + pool, but is not pooled"));
         } else {
@@ -709,6 +731,91 @@ fn after_chain_change(w: &mut World, out: &mut Out, pre: &Pre) {
     out.count("chain-change");
     if !post.is_empty() {
         out.count("chain-change-with-pool");
+    }
+}
+
+/// the second step of a paused submission: `submit_entry(pre_resolve_tip, entry, status)`, then `after_process`.
+/// Emits the model lines (pool before, current view, `rstale`) unless a pooled entry spends one of the
+/// transaction's inputs or has its id (then `check_rbf` decides: C11's subject), and evaluates the clauses of
+/// the property on the implementation for the released transaction.
+fn release_paused(w: &mut World, out: &mut Out) {
+    let Some((tid, handle, pre_tip, pre_stage)) = w.paused.take() else { return };
+    w.sync_pool(out);
+    let before = w.dump();
+    let snap = w.main.shared.snapshot();
+    let tx = w.txs[tid - 1].clone();
+    let tip_changed = snap.tip_hash() != pre_tip;
+    let spent: Vec<u64> = tx.input_pts_iter().map(|op| w.op_code(&op)).collect();
+    let deps: Vec<u64> = tx.cell_deps_iter().map(|d| w.op_code(&d.out_point())).collect();
+    let hdeps: Vec<usize> = tx.header_deps_iter().map(|h| w.block_id(&h)).collect();
+    let off_main: Vec<usize> = tx.header_deps_iter().filter(|h| !snap.is_main_chain(h)).map(|h| w.block_id(&h)).collect();
+    let conflict = before.iter().any(|e| e.tid == tid || e.spent.iter().any(|o| spent.contains(o)));
+    let live = w.live_codes();
+    let res = handle.release();
+    let accepted = matches!(res, Ok(Ok(())));
+    out.count(if tip_changed { "prelease-after-tip-change" } else { "prelease-same-tip" });
+    out.count(if accepted { "prelease-accepted" } else { "prelease-refused" });
+    let post = w.dump();
+    let snap = w.main.shared.snapshot();
+    if conflict {
+        out.count("prelease-with-pool-conflict-not-compared");
+    } else {
+        out.op("rpool", "ok");
+        for e in &before {
+            out.op(&format!("rent {} {} {} {} {} {} {}", e.tid, e.status, list(e.spent.clone()), list(e.deps.clone()), list(e.hdeps.clone()), list(e.outs.clone()), e.size), "ok");
+        }
+        let known = |s: &HashSet<ProposalShortId>| -> Vec<usize> { s.iter().filter_map(|id| w.tid_by_short.get(id).cloned()).collect() };
+        out.op(&format!("rargs {} - {} {} {} {}", list(off_main.clone()), list(known(snap.proposals().gap())), list(known(snap.proposals().set())), w.cfg.max_ancestors, w.cfg.max_pool_size), "ok");
+        let mut after: Vec<(usize, u8)> = post.iter().map(|e| (e.tid, e.status)).collect();
+        after.sort();
+        let size = tx.data().serialized_size_in_block();
+        out.op(
+            &format!("rstale {} {} {} {} {} {} {} {} {}", tid, list(spent.clone()), list(deps.clone()), list(hdeps.clone()), list((0..tx.outputs().len()).map(|i| tid as u64 * 16 + i as u64).collect()), size, tip_changed as u8, pre_stage, list(live.clone())),
+            &format!("{} {}", accepted as u8, if after.is_empty() { "-".to_string() } else { after.iter().map(|(t, s)| format!("{t}:{s}")).collect::<Vec<_>>().join(",") }),
+        );
+        if accepted && post.len() < before.len() + 1 {
+            out.count("prelease-accepted-with-evictions");
+        }
+        if !accepted && post.len() < before.len() {
+            out.count("prelease-refused-after-evictions");
+        }
+    }
+    // ---- the property on the implementation alone, for the released transaction and the pool it joined
+    let pooled: HashSet<usize> = post.iter().map(|e| e.tid).collect();
+    if let Some(e) = post.iter().find(|e| e.tid == tid) {
+        if snap.get_transaction_info(&tx.hash()).is_some() {
+            out.oracle_fail("stale-submit-committed-in-pool", &format!("tx{tid} was admitted by a paused submission although it is committed on the main chain"));
+        }
+        for op in tx.input_pts_iter().chain(tx.cell_deps_iter().map(|d| d.out_point())) {
+            let src = w.tid_by_hash.get(&op.tx_hash()).cloned();
+            if !src.map_or(false, |t| pooled.contains(&t)) && !snap.have_cell(&op) {
+                out.oracle_fail("stale-submit-dead-or-unknown-input", &format!("tx{tid} was admitted by a paused submission (tip changed: {tip_changed}) with out-point {} that is neither live nor created in the pool", w.op_code(&op)));
+            }
+        }
+        if tx.header_deps_iter().any(|h| !snap.is_main_chain(&h)) {
+            out.oracle_fail("stale-submit-detached-header-dep", &format!("tx{tid} was admitted by a paused submission with a header dep off the main chain"));
+        }
+        let id = tx.proposal_short_id();
+        let want = if snap.proposals().contains_proposed(&id) { 2 } else if snap.proposals().contains_gap(&id) { 1 } else { 0 };
+        if e.status != want {
+            out.oracle_fail("stale-submit-stage-mismatch", &format!("tx{tid} admitted by a paused submission at status {} but the window says {}", e.status, want));
+        }
+    } else if accepted {
+        out.count("prelease-accepted-but-not-pooled");
+    }
+    // every other entry: still resolvable (an eviction takes descendants along)
+    for e in &post {
+        if e.tid == tid || !before.iter().any(|b| b.tid == e.tid) {
+            continue;
+        }
+        let etx = &w.txs[e.tid - 1];
+        for op in etx.input_pts_iter().chain(etx.cell_deps_iter().map(|d| d.out_point())) {
+            let src = w.tid_by_hash.get(&op.tx_hash()).cloned();
+            let was = src.map_or(false, |t| before.iter().any(|b| b.tid == t));
+            if was && !src.map_or(false, |t| pooled.contains(&t)) && !snap.have_cell(&op) {
+                out.oracle_fail("stale-submit-orphans-pooled-tx", &format!("tx{} lost the creator of out-point {} to the paused submission of tx{tid}", e.tid, w.op_code(&op)));
+            }
+        }
     }
 }
 
@@ -729,11 +836,11 @@ fn exec(w: &mut Option<World>, out: &mut Out, base: &Path, line: &str) {
             *w = Some(World::new(base, out.case, cfg));
             out.op(line, "ok");
         }
-        "rpool" | "rent" | "ratt" | "rdet" | "rargs" | "rlive" | "rlinks" | "rafter" | "rback" => {}
+        "rpool" | "rent" | "ratt" | "rdet" | "rargs" | "rlive" | "rlinks" | "rafter" | "rback" | "rstale" => {}
         _ => {
             let w = w.as_mut().expect("cfg first");
             match ts[0] {
-                "submit" => {
+                "submit" | "psubmit" => {
                     let tid: usize = ts[1].parse().unwrap();
                     assert_eq!(tid, w.txs.len() + 1, "tids are consecutive");
                     let inputs: Vec<(OutPoint, u64)> = ts[2]
@@ -770,11 +877,37 @@ fn exec(w: &mut Option<World>, out: &mut Out, base: &Path, line: &str) {
                     w.tid_by_hash.insert(tx.hash(), tid);
                     w.txs.push(tx.clone());
                     w.fees.push(fee);
-                    match w.tpc().submit_local_tx(tx) {
-                        Ok(Ok(())) => out.count("submit-accepted"),
-                        Ok(Err(_)) => out.count("submit-rejected"),
-                        Err(_) => out.count("submit-error"),
+                    if ts[0] == "submit" {
+                        match w.tpc().submit_local_tx(tx) {
+                            Ok(Ok(())) => out.count("submit-accepted"),
+                            Ok(Err(_)) => out.count("submit-rejected"),
+                            Err(_) => out.count("submit-error"),
+                        }
+                    } else {
+                        // first phase only (non_contextual_verify, pre_check, verify_rtx); `prelease` runs submit_entry
+                        release_paused(w, out);
+                        w.sync_pool(out);
+                        let tip = w.main.tip_hash();
+                        let snap = w.main.shared.snapshot();
+                        let id = tx.proposal_short_id();
+                        let stage = if snap.proposals().contains_proposed(&id) { 2 } else if snap.proposals().contains_gap(&id) { 1 } else { 0 };
+                        match w.tpc().verif_submit_paused(tx) {
+                            Ok(h) => {
+                                if h.phase1.is_ok() {
+                                    out.count("psubmit-paused");
+                                    w.paused = Some((tid, h, tip, stage));
+                                } else {
+                                    out.count("psubmit-rejected-at-pre-check");
+                                    let _ = h.release();
+                                }
+                            }
+                            Err(_) => out.count("psubmit-error"),
+                        }
                     }
+                    out.op(line, "ok");
+                }
+                "prelease" => {
+                    release_paused(w, out);
                     out.op(line, "ok");
                 }
                 "time" => {
@@ -817,7 +950,8 @@ fn exec(w: &mut Option<World>, out: &mut Out, base: &Path, line: &str) {
                 "forkx" => {
                     let n = nums(&ts[1..3]);
                     let tids = |t: &str| -> Vec<usize> { if t == "-" { vec![] } else { t.split(',').map(|x| x.parse::<usize>().expect("tid")).collect() } };
-                    do_forkx(w, out, n[0], n[1], &tids(ts[3]), &tids(ts[4]));
+                    let up = if ts.len() > 5 { tids(ts[5]) } else { vec![] };
+                    do_forkx(w, out, n[0], n[1], &tids(ts[3]), &tids(ts[4]), &up);
                     out.op(line, "ok");
                 }
                 other => panic!("bad op {other}"),
@@ -860,20 +994,27 @@ fn do_fork(w: &mut World, out: &mut Out, back: u64, extra: u64, nprop: usize, nc
             }
         }
     }
-    run_branch(w, out, fork_point, len, &proposals, &commits, 3);
+    run_branch(w, out, fork_point, len, &proposals, &commits, 3, &[]);
 }
 
 /// the blocks of a branch: the first proposes, the commitments follow from block 1+w_close on
 /// (at most `per_block` per block, inside the window of the first block's proposals); every block
 /// that becomes the tip is a chain change
-fn run_branch(w: &mut World, out: &mut Out, fork_point: Byte32, len: u64, proposals: &[ProposalShortId], commits: &[TransactionView], per_block: usize) {
-    let mut parent = fork_point;
+fn run_branch(w: &mut World, out: &mut Out, fork_point: Byte32, len: u64, proposals: &[ProposalShortId], commits: &[TransactionView], per_block: usize, uncle_props: &[ProposalShortId]) {
+    let mut parent = fork_point.clone();
     let mut ci = 0;
     for j in 1..=len {
         w.salt += 1;
         let mut spec = BlockSpec { salt: w.salt, ..Default::default() };
         if j == 1 {
             spec.proposals = proposals.to_vec();
+        }
+        if j == 2 && !uncle_props.is_empty() {
+            // (round 6) the second block carries an uncle (a sibling of the first block) whose proposals count
+            // for the window of the including block (`union_proposal_ids`)
+            let u = w.builder.build(&fork_point, &BlockSpec { salt: w.salt + 500_000, proposals: uncle_props.to_vec(), ..Default::default() });
+            spec.uncles = vec![u.as_uncle()];
+            out.count("forkx-uncle-with-proposals");
         }
         if j >= 1 + w.cfg.w_close && j <= 1 + w.cfg.w_far {
             while ci < commits.len() && spec.txs.len() < per_block {
@@ -905,7 +1046,8 @@ fn run_branch(w: &mut World, out: &mut Out, fork_point: Byte32, len: u64, propos
 }
 
 /// another miner's blocks with an explicit choice of proposals and commitments
-fn do_forkx(w: &mut World, out: &mut Out, back: u64, len: u64, props: &[usize], commits: &[usize]) {
+fn do_forkx(w: &mut World, out: &mut Out, back: u64, len: u64, props: &[usize], commits: &[usize], uprops: &[usize]) {
+    let uncle_props: Vec<ProposalShortId> = uprops.iter().filter(|t| **t >= 1 && **t <= w.txs.len()).map(|t| w.txs[*t - 1].proposal_short_id()).collect();
     let snap = w.main.shared.snapshot();
     let tipn = snap.tip_number();
     let back = back.min(tipn);
@@ -950,7 +1092,7 @@ fn do_forkx(w: &mut World, out: &mut Out, back: u64, len: u64, props: &[usize], 
         }
     }
     out.count(if back == 0 { "forkx-extension" } else { "forkx-branch" });
-    run_branch(w, out, fork_point, len, &proposals, &txs, 4);
+    run_branch(w, out, fork_point, len, &proposals, &txs, 4, &uncle_props);
 }
 
 /// what the generator remembers of a submitted transaction
@@ -1108,7 +1250,110 @@ fn gen_burst(g: &mut Gen, rng: &mut Rng, w_close: u64, w_far: u64) -> Vec<String
     let fresh = |g: &Gen, not: &[(usize, usize, u64)]| -> Option<(usize, usize, u64)> { g.free.iter().find(|c| c.0 == 0 && !not.iter().any(|n| n.0 == c.0 && n.1 == c.1)).cloned() };
     let back = if rng.chance(1, 2) { 0 } else { rng.range(1, w_far + 2) };
     let mines = rng.below(3);
-    let kind = rng.below(10);
+    let kind = rng.below(16);
+    if kind >= 10 && kind < 12 {
+        // (round 6) E: B depends on cell X, A spends X (both pooled, A after B); a DIFFERENT spender C of X,
+        // known to the other miner only (below the pool's min fee), is committed: A and B must both go
+        // (`resolve_conflict` runs the input sweep AND the dep sweep for the same out-point)
+        let Some(y) = fresh(g, &[]) else { return lines };
+        let Some(x) = fresh(g, &[y]) else { return lines };
+        let b_first = rng.chance(2, 3);
+        let emit_b = |g: &mut Gen, rng: &mut Rng, lines: &mut Vec<String>| -> Option<usize> {
+            let lb = gen_emit(g, &[y], &[x], *rng.pick(&[1000u64, 2000, 5000]), 2, None)?;
+            lines.push(lb);
+            let b = g.next_tid - 1;
+            let k = rng.below(3);
+            gen_chain(g, rng, b, k, lines);
+            Some(b)
+        };
+        let mut b = None;
+        if b_first {
+            b = emit_b(g, rng, &mut lines);
+            if b.is_none() { return lines; }
+        }
+        let Some(la) = gen_emit(g, &[x], &[], *rng.pick(&[1000u64, 2000, 5000]), 2, None) else { return lines };
+        let a = g.next_tid - 1;
+        lines.push(la);
+        let k = rng.below(3);
+        gen_chain(g, rng, a, k, &mut lines);
+        if !b_first {
+            // B after A: the pool refuses a dep on a cell a pooled tx spends, B then stays foreign
+            g.free.push(x);
+            b = emit_b(g, rng, &mut lines);
+            if let Some(i) = g.free.iter().position(|c| c.0 == x.0 && c.1 == x.1) { g.free.remove(i); }
+            if b.is_none() { return lines; }
+        }
+        // C: the same input X again, fee below the minimum (never pooled)
+        g.free.push(x);
+        let Some(lc) = gen_emit(g, &[x], &[], 100, 1, None) else { return lines };
+        let c = g.next_tid - 1;
+        lines.push(lc);
+        for _ in 0..mines {
+            lines.push("mine".to_string());
+        }
+        let props = if rng.chance(1, 2) { vec![c] } else { vec![c, a, b.unwrap()] };
+        let len = (back + 1).max(w_close + 1) + rng.below(2);
+        lines.push(format!("forkx {} {} {} {}", back, len, list_usize(&props), c));
+        return lines;
+    }
+    if kind >= 12 && kind < 14 {
+        // (round 6) R: a pooled transaction is proposed by another miner, never committed, and proposed AGAIN
+        // around the block at which the first proposal leaves the window (offsets w_far-1, w_far, w_far+1 after
+        // the first proposal): at w_far it is detached and back in the gap part at the same chain change
+        let Some(y) = fresh(g, &[]) else { return lines };
+        let Some(lv) = gen_emit(g, &[y], &[], *rng.pick(&[1000u64, 2000, 5000]), 2, None) else { return lines };
+        let v = g.next_tid - 1;
+        lines.push(lv);
+        let k = rng.below(2);
+        gen_chain(g, rng, v, k, &mut lines);
+        if rng.chance(1, 4) {
+            // proposed by an UNCLE of the second block; abandoned later (detached uncle proposals) or left to expire
+            lines.push(format!("forkx 0 2 - - {}", v));
+            if rng.chance(1, 2) {
+                lines.push("forkx 1 2 - -".to_string());
+            } else {
+                lines.push(format!("forkx 0 {} - -", w_far));
+            }
+            return lines;
+        }
+        lines.push(format!("forkx 0 1 {} -", v));
+        let off = match rng.below(4) { 0 => w_far - 1, 1 => w_far + 1, _ => w_far };
+        if off > 1 {
+            lines.push(format!("forkx 0 {} - -", off - 1));
+        }
+        lines.push(format!("forkx 0 1 {} -", v));
+        for _ in 0..rng.below(3) {
+            lines.push(if rng.chance(1, 2) { "mine".to_string() } else { "forkx 0 1 - -".to_string() });
+        }
+        return lines;
+    }
+    if kind >= 14 {
+        // (round 6) T: a parent is committed in one block, its child (and an independent transaction) in a
+        // LATER block, by another miner; then both blocks are abandoned: the re-adds must go in block order
+        let Some(y) = fresh(g, &[]) else { return lines };
+        let Some(lp) = gen_emit(g, &[y], &[], 2000, 2, None) else { return lines };
+        let p = g.next_tid - 1;
+        lines.push(lp);
+        let ext = w_close + 1;
+        lines.push(format!("forkx 0 {} {} {}", ext, p, p));
+        let before = g.next_tid;
+        let kq = rng.range(1, 2);
+        gen_chain(g, rng, p, kq, &mut lines);
+        let mut second: Vec<usize> = (before..g.next_tid).collect();
+        if second.is_empty() { return lines; }
+        if rng.chance(1, 2) {
+            if let Some(z) = fresh(g, &[]) {
+                if let Some(lr) = gen_emit(g, &[z], &[], 1000, 1, None) {
+                    lines.push(lr);
+                    second.push(g.next_tid - 1);
+                }
+            }
+        }
+        lines.push(format!("forkx 0 {} {} {}", ext, list_usize(&second), list_usize(&second)));
+        let depth = 2 * ext;
+        lines.push(format!("forkx {} {} - -", depth, depth + 1));
+        return lines;
+    }
     if kind < 5 {
         // B depends on cell X, A spends X; A (and what it needs) is committed without B
         let Some(y) = fresh(g, &[]) else { return lines };
@@ -1291,6 +1536,138 @@ fn gen_deep(g: &mut Gen, rng: &mut Rng, w_close: u64, w_far: u64, m: u64) -> Vec
     lines
 }
 
+/// (round 6) directed families for a submission that is paused between its verification and `submit_entry`
+/// while the chain (and the pool's view of it) moves: `psubmit` … chain ops … `prelease`
+fn gen_paused(g: &mut Gen, rng: &mut Rng, w_close: u64, w_far: u64, m: u64) -> Vec<String> {
+    let mut lines: Vec<String> = vec![];
+    let fresh = |g: &Gen, not: &[(usize, usize, u64)]| -> Option<(usize, usize, u64)> { g.free.iter().find(|c| c.0 == 0 && !not.iter().any(|n| n.0 == c.0 && n.1 == c.1)).cloned() };
+    let out0 = |g: &Gen, t: usize| -> Option<(usize, usize, u64)> { g.free.iter().find(|c| c.0 == t && c.1 == 0).cloned() };
+    let paused = |l: String| -> String { format!("p{l}") };
+    let ext = w_close + 1;
+    let fee = *rng.pick(&[1000u64, 2000, 5000]);
+    match rng.below(7) {
+        0 => {
+            // a foreign spender C of the same cell is committed while t is paused: t must be refused (dead input)
+            let Some(x) = fresh(g, &[]) else { return lines };
+            let Some(lc) = gen_emit(g, &[x], &[], 100, 1, None) else { return lines };
+            let c = g.next_tid - 1;
+            lines.push(lc);
+            g.free.push(x);
+            let mut ins = vec![x];
+            if rng.chance(1, 3) {
+                if let Some(z) = fresh(g, &[x]) { ins.push(z); }
+            }
+            let Some(lt) = gen_emit(g, &ins, &[], fee, 2, None) else { return lines };
+            lines.push(paused(lt));
+            let back = if rng.chance(1, 2) { 0 } else { rng.range(1, w_far + 1) };
+            // sometimes released one block BEFORE the commitment (still live: accepted, then conflicting at the commit)
+            let len = if rng.chance(1, 4) { (back + 1).max(w_close) } else { (back + 1).max(ext) };
+            lines.push(format!("forkx {} {} {} {}", back, len, c, c));
+        }
+        1 => {
+            // t spends an output of a pooled parent; the parent is committed (own blocks or another miner's),
+            // sometimes abandoned again (re-added, or conflicted away) before the release
+            let Some(y) = fresh(g, &[]) else { return lines };
+            let Some(lp) = gen_emit(g, &[y], &[], fee, 2, None) else { return lines };
+            let p = g.next_tid - 1;
+            lines.push(lp);
+            let Some(p0) = out0(g, p) else { return lines };
+            let Some(lt) = gen_emit(g, &[p0], &[], 2000, 1, None) else { return lines };
+            lines.push(paused(lt));
+            match rng.below(4) {
+                0 => { for _ in 0..ext + 1 { lines.push("mine".to_string()); } }
+                1 => lines.push(format!("forkx 0 {} {} {}", ext, p, p)),
+                2 => {
+                    lines.push(format!("forkx 0 {} {} {}", ext, p, p));
+                    lines.push(format!("forkx {} {} - -", ext, ext + 1));
+                }
+                _ => {
+                    // the parent is committed and abandoned, and a foreign twin of the parent is committed instead
+                    g.free.push(y);
+                    if let Some(lq) = gen_emit(g, &[y], &[], 100, 1, None) {
+                        let q = g.next_tid - 1;
+                        // (the twin is refused by the pool: a conflict with the pooled parent, and below the min fee)
+                        lines.push(lq);
+                        lines.push(format!("forkx 0 {} {} {}", ext, p, p));
+                        lines.push(format!("forkx {} {} {} {}", ext, ext + 1 + w_close, q, q));
+                    }
+                }
+            }
+        }
+        2 => {
+            // a header dep on a recent block; the block is detached (or not) while t is paused
+            let Some(y) = fresh(g, &[]) else { return lines };
+            let Some(lt) = gen_emit(g, &[y], &[], fee, 1, Some(rng.below(2))) else { return lines };
+            lines.push(paused(lt));
+            if rng.chance(3, 4) {
+                let back = rng.range(1, 2);
+                lines.push(format!("forkx {} {} - -", back, back + 1));
+            } else {
+                lines.push("forkx 0 1 - -".to_string());
+            }
+        }
+        3 => {
+            // t is proposed by another miner while it is paused: the stage comes from the CURRENT window
+            let Some(y) = fresh(g, &[]) else { return lines };
+            let Some(lt) = gen_emit(g, &[y], &[], fee, 1, None) else { return lines };
+            let t = g.next_tid - 1;
+            lines.push(paused(lt));
+            let k = *rng.pick(&[1, w_close, w_close + 1, w_far, w_far + 1]);
+            lines.push(format!("forkx 0 {} {} -", k.max(1), t));
+        }
+        4 if m >= 4 && m <= 8 => {
+            // at the ancestor limit when submit_entry runs: a chain of m-1 (or m) pooled entries, t behind the last;
+            // sometimes t also spends a cell that a pooled B has as a cell dep (B is evicted to make room)
+            let Some(y) = fresh(g, &[]) else { return lines };
+            let Some(l) = gen_emit(g, &[y], &[], 2000, 1, None) else { return lines };
+            let a1 = g.next_tid - 1;
+            lines.push(l);
+            let over = rng.chance(1, 3);
+            let more = if over { m - 1 } else { m - 2 };
+            gen_chain(g, rng, a1, more, &mut lines);
+            let last = g.next_tid - 1;
+            if last != a1 + more as usize { return lines; }
+            let Some(l0) = out0(g, last) else { return lines };
+            let mut ins = vec![l0];
+            if !over && rng.chance(2, 3) {
+                let Some(x) = fresh(g, &[]) else { return lines };
+                let Some(z) = fresh(g, &[x]) else { return lines };
+                let Some(lb) = gen_emit(g, &[z], &[x], fee, 1, None) else { return lines };
+                lines.push(lb);
+                ins.push(x);
+            }
+            let Some(lt) = gen_emit(g, &ins, &[], 5000, 1, None) else { return lines };
+            lines.push(paused(lt));
+            lines.push(if rng.chance(1, 2) { "forkx 0 1 - -".to_string() } else { "mine".to_string() });
+        }
+        5 => {
+            // released at the tip of its pre-check (nothing is re-checked)
+            let Some(y) = fresh(g, &[]) else { return lines };
+            let Some(lt) = gen_emit(g, &[y], &[], fee, 2, None) else { return lines };
+            lines.push(paused(lt));
+            if rng.chance(1, 2) {
+                if let Some(l) = gen_submit(g, rng) { lines.push(l); }
+            }
+        }
+        _ => {
+            // any submission of the random stream, paused over one or two random chain changes
+            let Some(l) = gen_submit(g, rng) else { return lines };
+            lines.push(paused(l));
+            for _ in 0..rng.range(1, 2) {
+                match rng.below(3) {
+                    0 => lines.push("mine".to_string()),
+                    1 => lines.push(format!("fork {} {} {} {}", rng.range(1, w_far + 1), rng.range(1, 2), rng.below(6), rng.below(4))),
+                    _ => {
+                        if let Some(l) = gen_forkx(g, rng, w_close, w_far) { lines.push(l); } else { lines.push("mine".to_string()); }
+                    }
+                }
+            }
+        }
+    }
+    lines.push("prelease".to_string());
+    lines
+}
+
 /// the transactions `t` needs committed before it (creators of its inputs and cell deps), `t` last
 fn gen_closure(g: &Gen, t: usize, skip: &HashSet<usize>) -> Option<Vec<usize>> {
     let mut need: Vec<usize> = vec![];
@@ -1394,6 +1771,19 @@ fn gen_forkx(g: &Gen, rng: &mut Rng, w_close: u64, w_far: u64) -> Option<String>
     let need = (commits.len() as u64 + 3) / 4;
     let len = (back + 1).max(w_close + need) + rng.below(2);
     let l = |v: &Vec<usize>| v.iter().map(|x| x.to_string()).collect::<Vec<_>>().join(",");
+    if len >= 2 && rng.chance(1, 5) {
+        // proposals of an uncle of the second block
+        let mut up: Vec<usize> = vec![];
+        for _ in 0..rng.range(1, 2) {
+            let t = recent(rng);
+            if !props.contains(&t) && !up.contains(&t) {
+                up.push(t);
+            }
+        }
+        if !up.is_empty() {
+            return Some(format!("forkx {} {} {} {} {}", back, len, l(&props), l(&commits), l(&up)));
+        }
+    }
     Some(format!("forkx {} {} {} {}", back, len, l(&props), l(&commits)))
 }
 
@@ -1410,11 +1800,17 @@ fn gen_case(out: &mut Out, base: &Path, rng: &mut Rng, steps: u64) {
     let mut fp = String::new();
     for _ in 0..steps {
         let r = rng.below(100);
-        if r >= 93 && rng.chance(1, 2) {
+        if r >= 92 && rng.chance(1, 2) {
             // a directed family (several lines)
-            let burst = if max_anc <= 8 && rng.chance(2, 3) { gen_deep(&mut g, rng, w_close, w_far, max_anc) } else { gen_burst(&mut g, rng, w_close, w_far) };
+            let burst = if rng.chance(1, 3) {
+                gen_paused(&mut g, rng, w_close, w_far, max_anc)
+            } else if max_anc <= 8 && rng.chance(2, 3) {
+                gen_deep(&mut g, rng, w_close, w_far, max_anc)
+            } else {
+                gen_burst(&mut g, rng, w_close, w_far)
+            };
             for line in burst {
-                fp.push(if line.starts_with("forkx") { 'X' } else { (line.as_bytes()[0] as char).to_ascii_uppercase() });
+                fp.push(if line.starts_with("forkx") { 'X' } else if line.starts_with("ps") { 'Q' } else if line.starts_with("pr") { 'R' } else { (line.as_bytes()[0] as char).to_ascii_uppercase() });
                 exec(&mut w, out, base, &line);
             }
             continue;
@@ -1429,7 +1825,7 @@ fn gen_case(out: &mut Out, base: &Path, rng: &mut Rng, steps: u64) {
         } else if r < 82 {
             let back = rng.range(1, w_far + 2);
             format!("fork {} {} {} {}", back, rng.range(1, 2), rng.below(10), rng.below(5))
-        } else if r < 93 {
+        } else if r < 92 {
             match gen_forkx(&g, rng, w_close, w_far) {
                 Some(l) => l,
                 None => continue,
